@@ -203,6 +203,18 @@ func runQueue(t *testing.T, c *c11Case) {
 		tb.learn(c.Ops)
 		t0 := time.Now()
 		c.Obs = nil
+		// what Dequeue handed out belongs to the caller (the two finalisation flows share the queue and keep the slice
+		// while they build payloads): it is re-read after the later operations and judged with its later content
+		type held struct {
+			at int
+			v  []common.CoordinatedBlockProposal
+		}
+		var kept []held
+		defer func() {
+			for _, h := range kept {
+				c.Obs[h.at].Out = tb.project(h.v)
+			}
+		}()
 		for _, o := range c.Ops {
 			at := int64(time.Since(t0))
 			switch o.K {
@@ -223,6 +235,7 @@ func runQueue(t *testing.T, c *c11Case) {
 					t.Fatalf("Dequeue: %v", err)
 				}
 				c.Obs = append(c.Obs, c11Ev{Op: o, At: at, Out: tb.project(v)})
+				kept = append(kept, held{len(c.Obs) - 1, v})
 			}
 		}
 	})
